@@ -348,7 +348,12 @@ TEXT = {'C11': {'technique': 'Lean 4 proof by mutual structural induction over t
                   'order (try_return!/try_eval!/plain call/consume_token!/expect_token!/node built); for the 8 choice functions, the 9 binary-operator '
                   'functions and the 5 keyword leaves (22 of 36) the body the model runs IS the interpretation of the extracted row (C07_parser_steps_regular: '
                   'alternatives in order; left operand nonterminal, operator token, right operand nonterminal, node), the other 14 rows are compared with the '
-                  'rows the model was written from (C07_parser_steps_irregular).',
+                  'rows the model was written from (C07_parser_steps_irregular). **Unambiguity of grammar.y is a theorem (Lemmas/Unambiguous.lean): a token '
+                  'segment has at most one parse tree from any of the 36 nonterminals (C07_unambiguous), by an extension law — two derivations from the same '
+                  'nonterminal and start either end together with equal trees or the token after the shorter one lies in a fixed set that contains no '
+                  'separator of the construct (C07_extension_law; atoms are prefix-free: C07_atom_end_unique); hence the tree the parser returns for an '
+                  'accepted input is THE tree of that token sequence (C07_accepted_unique_tree). Completeness of the parser is proved for the printed '
+                  'sublanguage (C16_parse_printed).**',
          'note': 'Trusted: Lean kernel, standard axioms, harness/driver, the Earley recogniser, the renderer of prog.rs.'},
  'C08': {'technique': 'Lean proof that the model resolver (name->depth map with insert/remove, as the Rust) is sound and complete w.r.t. a binder-stack '
                       'specification toDB, restores its map, and allocates fresh holes; resolver model tied to parser.rs by op `parse` (indices of every '
